@@ -16,6 +16,11 @@ CLAIMED = {
     ),
 }
 
+CLAIMED["C08"] = (
+    "Deductive proof, per endpoint handler and helper of the CT front end, of the contracts taken from the property statement: the gRPC-code to HTTP-status table (every code), no 200 when the backend returned an error, status 200 only after every sanity check on the reply passed (root decodes, tree large enough, proof/leaf present, hashes 32 bytes, leaves contiguous and not surplus), parameter errors are 400 without a backend call, wrong method is 405 without calling the handler, masking of internal error text, plus a no-panic obligation at every dereference/index/slice/type assertion in those functions. Obligations are generated from the current source for all inputs and discharged by SMT.",
+    "Trusted: go/ssa lowering, govc translation, solvers; assumed contracts of the gRPC stubs (nil error => non-nil reply; elements of repeated fields non-nil; a non-nil error has a non-OK code), net/http, json; logInfo is immutable after construction (checked syntactically: frame:stable). Not decided: what net/http does with a half-written body; add-chain handler internals are claimed under C01 only when discharged.",
+)
+
 NOT_YET = "contracts for this property are not yet discharged by the generator in this revision; no other technique is substituted"
 NOT_APPLICABLE = {}
 
